@@ -201,6 +201,24 @@ RECIPES = [
     ("C18", "break", ["C18-R3"], "pyyeti/nastran/n2p.py", "    pvi[pvi == i.size] -= 1\n    pv = i[pvi]\n\n    chk", "    pv = i[pvi]\n\n    chk", "clamp deleted"),
     ("C18", "break", ["C18-R3"], "pyyeti/locate.py", "    out_dtype = np.result_type(haystack.dtype, needles.dtype)", "    out_dtype = haystack.dtype", "lossy key type"),
     ("C18", "break", ["C18-R4"], "pyyeti/nastran/n2p.py", "    if (edof[:, 1] > 6).any():\n        raise ValueError(\"found DOF > 6?\")\n", "", "expanddof guard"),
+    # ---- C20
+    ("C20", "break", ["C20-R5"], "pyyeti/stats.py", "            if _func(a, 1 - c, r - 1, 1 - p) >= 0:\n                # `r` samples (the fewest possible) already meet the confidence\n                return a\n", "", "revert F16"),
+    ("C20", "break", ["C20-R1"], "pyyeti/stats.py", "    return nct.ppf(c, n - 1, pnonc) / sn", "    return nct.ppf(c, n, pnonc) / sn", "degrees of freedom"),
+    ("C20", "break", ["C20-R1"], "pyyeti/stats.py", "    pnonc = sn * norm.ppf(p)\n    return nct.ppf(c, n - 1, pnonc) / sn", "    pnonc = sn * norm.ppf(c)\n    return nct.ppf(p, n - 1, pnonc) / sn", "coverage and confidence swapped"),
+    ("C20", "break", ["C20-R2"], "pyyeti/stats.py", "        den = spi * (np.exp(-(lhi**2) / 2) + np.exp(-(llo**2) / 2))", "        den = spi * (np.exp(-(lhi**2) / 2) - np.exp(-(llo**2) / 2))", "Newton derivative"),
+    ("C20", "break", ["C20-R2"], "pyyeti/stats.py", "        llo = sn - rold", "        llo = -sn - rold", "lower integration limit"),
+    ("C20", "break", ["C20-R2"], "pyyeti/stats.py", "    while np.any(abs(r - rold) > tol) and loops < MAXLOOPS:", "    while np.all(abs(r - rold) > tol) and loops < MAXLOOPS:", "array convergence test"),
+    ("C20", "break", ["C20-R3"], "pyyeti/stats.py", "    chi = chi2.ppf(1 - c, n - 1)", "    chi = chi2.ppf(c, n - 1)", "chi-square tail"),
+    ("C20", "break", ["C20-R3"], "pyyeti/stats.py", "    r = _getr(n, p, tol)\n    return np.sqrt", "    r = _getr(n, c, tol)\n    return np.sqrt", "coverage root computed for the confidence"),
+    ("C20", "break", ["C20-R4"], "pyyeti/stats.py", "        return binom.sf(r - 1, n, 1 - p)", "        return binom.sf(r, n, 1 - p)", "rank off by one in the confidence arm"),
+    ("C20", "break", ["C20-R4"], "pyyeti/stats.py", "        r.flat = [binom.ppf(1 - c, n, 1 - p) for (c, n, p) in b]", "        r.flat = [binom.ppf(c, n, 1 - p) for (c, n, p) in b]", "rank arm tail"),
+    ("C20", "break", ["C20-R4"], "pyyeti/stats.py", "        return np.ceil(n).astype(int)", "        return np.floor(n).astype(int)", "sample size rounded down"),
+    ("C20", "break", ["C20-R4"], "pyyeti/stats.py", "            return p - (1 - betainc(s + 1, n - s, pr))", "            return p - (1 - betainc(s, n - s, pr))", "incomplete beta shape"),
+    ("C20", "break", ["C20-R5"], "pyyeti/stats.py", "            while _func(b, 1 - c, r - 1, 1 - p) < 0 and loops < 30:", "            while _func(b, 1 - c, r, 1 - p) < 0 and loops < 30:", "bracket probe with other parameters"),
+    ("C20", "neutral", [], "pyyeti/stats.py", "    pnonc = sn * norm.ppf(p)\n    return nct.ppf(c, n - 1, pnonc) / sn", "    zp = norm.ppf(p)\n    dof = n - 1\n    return nct.ppf(c, dof, zp * sn) / sn", "temporaries renamed / introduced"),
+    ("C20", "neutral", [], "pyyeti/stats.py", "    chi = chi2.ppf(1 - c, n - 1)", "    chi = chi2.isf(c, n - 1)", "isf form of the same quantile"),
+    ("C20", "neutral", [], "pyyeti/stats.py", "        return binom.sf(r - 1, n, 1 - p)", "        return 1 - binom.cdf(r - 1, n, 1 - p)", "cdf form of the same tail"),
+    ("C20", "neutral", [], "pyyeti/stats.py", "        num = norm.cdf(lhi) - norm.cdf(llo) - prob\n        den = spi * (np.exp(-(lhi**2) / 2) + np.exp(-(llo**2) / 2))", "        den = (np.exp(-lhi * lhi / 2) + np.exp(-llo * llo / 2)) * spi\n        num = -prob - norm.cdf(llo) + norm.cdf(lhi)", "reordered"),
     # ---- C19
     ("C19", "break", ["C19-R1"], "pyyeti/psd.py", "                intarea = (f2 * p2 - f1 * p1) / (s + 1.0)", "                intarea = (f2 * p2 - f1 * p1) / (s - 1.0)", "general area formula"),
     ("C19", "break", ["C19-R1"], "pyyeti/psd.py", "                intarea = p1 * f1 * np.log(f2 / f1)", "                intarea = p1 * f2 * np.log(f2 / f1)", "limit formula"),
